@@ -25,6 +25,7 @@ EXPLANATION = (
     "step 2, edge-list constraints get the head node of their *last* edge, every original-edge copy and every node without the "
     "(R5) the searches over k of the node-capable wrappers are bounded by the size of the model graph (the expanded one), not of the caller's graph.  "
     " (R6) node mode keeps what the expansion needs: the fill flag accompanies additional starts / ends, the ignore list of the expansion is never replaced, and single-node routes survive the remove-empty filters (C10.R8, C01.R5). "
+    " (R6, extended) node_length_attr reaches every node expansion of a class with length_attr; percentiles exclude the ignored edges between expanded nodes. "
     "attribute is appended to the ignore list; (R4) no `+` between an int-returning builtin and a str.  NOT decided: equality of "
     "solved status and objective with the explicit expansion."
 )
